@@ -134,7 +134,10 @@ pub fn scenario(u: &Unit) -> String {
             if nsrc > 0 {
                 let kk = nsrc as f32 + 2.0;
                 ob(&tag("sum_src(prod)~prod"), sum_src.approx(prod.t[t], kk, prod.t[t]));
-                ob(&tag("sum_src(epus)~epus"), sum_epus_src.approx(prod.epus_t[t], kk + 2.0, prod.t[t]));
+                // the total used never exceeds what the sources contribute (exact; the total may be
+                // limited to the EPB use, so equality is not required), and the parts stay within production
+                ob(&tag("epus<=sum_src(epus)"), prod.epus_t[t].le(sum_epus_src));
+                ob(&tag("sum_src(epus)<=sum_src(prod)"), sum_epus_src.le(sum_src));
             }
             // (5) ties to the declared inputs (folded in the implementation's order)
             let mut d_epus = k(0.0);
